@@ -10,12 +10,14 @@ namespace CalicoVerif.C26
 def ghostList (lo : ListOut) (g : Option (List KV)) : Option (List KV) :=
   match lo with
   | .ok kvs _ => some kvs
+  | .pollStop => some []
   | _ => g
 
 def ghostListed (lo : ListOut) (b : Bool) : Bool :=
   match lo with
   | .ok _ _ => true
   | .notFound => true
+  | .pollStop => true
   | _ => b
 
 /-- `resyncLoop` carrying the ghosts `g` (last successful List) and `b` (some List completed). -/
@@ -29,7 +31,8 @@ def resyncLoopG (fin : List KV × Nat) :
     let g := if full then ghostList lo g else g
     let b := if full then ghostListed lo b else b
     let lists := if full then lists.tail else lists
-    if !r.2.2 then resyncLoopG fin fuel r.1 r.2.1 lists watches g b
+    if full && lo.isPollStop then some (r.1, g, b)
+    else if !r.2.2 then resyncLoopG fin fuel r.1 r.2.1 lists watches g b
     else
       let w := watchStep r.1 r.2.1 (watches.headD WatchOut.ok)
       if w.2.2 then some (w.1, g, b) else resyncLoopG fin fuel w.1 w.2.1 lists watches.tail g b
@@ -54,10 +57,12 @@ theorem resyncLoopG_proj (fin : List KV × Nat) :
     generalize (if (full || decide (wc.rev = 0)) = true then ghostListed (lists.headD (ListOut.ok fin.1 fin.2)) b
       else b) = b'
     split
-    · exact ih _ _ _ _ _ _
+    · rfl
     · split
-      · rfl
       · exact ih _ _ _ _ _ _
+      · split
+        · rfl
+        · exact ih _ _ _ _ _ _
 
 /-- The cache holds exactly the conversion of `L` by a FRESH processor, and the processor's state is the one a
 fresh processor has after `L`. -/
@@ -196,6 +201,7 @@ theorem nn_listStep (wc : WC) (lo : ListOut) (h : ghostListed lo false = false) 
   cases lo with
   | notFound => simp [ghostListed] at h
   | ok kvs r => simp [ghostListed] at h
+  | pollStop => simp [ghostListed] at h
   | expired =>
     simp only [WC.onListExpired]
     exact (nn_beginFull wc).trans (NoNewInSync.of_out rfl)
@@ -266,6 +272,10 @@ theorem resyncLoopG_insync (fin : List KV × Nat) :
     generalize (if (full || decide (wc.rev = 0)) = true then ghostListed (lists.headD (ListOut.ok fin.1 fin.2)) b
       else b) = b' at hr hlist
     split at hr
+    · simp only [Option.some.injEq] at hr
+      subst hr
+      exact hlist
+    split at hr
     · exact ih _ _ _ _ _ _ hlist r hr
     · have hw := hlist.step (nn_watchStep r1.1 r1.2.1 (watches.headD WatchOut.ok))
       split at hr
@@ -290,6 +300,17 @@ theorem resyncLoopG_last {m0 : View} {st0 : Nat} (fin : List KV × Nat) (mode : 
     intro wc full lists watches g b hg ho hm hq r hr
     unfold resyncLoopG at hr
     simp only at hr
+    by_cases hstop : ((full || decide (wc.rev = 0)) && (lists.headD (ListOut.ok fin.1 fin.2)).isPollStop) = true
+    · simp only [hstop, if_true, Option.some.injEq] at hr
+      have hf : (full || decide (wc.rev = 0)) = true := (Bool.and_eq_true _ _ ▸ hstop).1
+      have hlo := isPollStop_eq _ (Bool.and_eq_true _ _ ▸ hstop).2
+      simp only [hf, if_true, hlo] at hr
+      subst hr
+      obtain ⟨hv, hp⟩ := listStep_pollStop_view hg
+      refine ⟨[], rfl, ⟨fun k => by rw [hv k, hm], by rw [hp, hm]⟩, by rw [listStep_mode]; exact hm⟩
+    have hstop' : ((full || decide (wc.rev = 0)) && (lists.headD (ListOut.ok fin.1 fin.2)).isPollStop) = false := by
+      simpa using hstop
+    simp only [hstop', Bool.false_eq_true, if_false] at hr
     have watchPart : ∀ (w1 : WC) (f : Bool) (ls : List ListOut) (g1 : Option (List KV)) (b1 : Bool) (L : List KV),
         Good m0 st0 w1 → w1.status ≠ stWait → w1.proc = mode → g1 = some L → ViewIs mode L w1 →
         (if (watchStep w1 f (watches.headD WatchOut.ok)).2.2 = true then
@@ -328,6 +349,7 @@ theorem resyncLoopG_last {m0 : View} {st0 : Nat} (fin : List KV × Nat) (mode : 
           | notFound => intro _; rfl
           | expired => intro _; rfl
           | other e => intro _; rfl
+          | pollStop => intro _; rfl
           | ok kvs lrev =>
             simp only
             split
